@@ -1,2 +1,10 @@
-// ---- shim/std_int.rs : std integer conversions not specified by vstd (assumed; transcribed from the std docs) ----
-// (usize::try_from(i32) is already specified by vstd::std_specs)
+// ---- shim/std_int.rs : std integer helpers not specified by vstd (assumed; transcribed from the std docs) ----
+// (usize::try_from(i32), u32::try_from(usize), usize -> u16 try_into are already specified by vstd::std_specs)
+pub mod shim_std_int {
+use vstd::prelude::*;
+#[verifier::external_body]
+pub fn min_usize(a: usize, b: usize) -> (r: usize) ensures r == (if a <= b { a } else { b }) { unimplemented!() }
+#[verifier::external_body]
+pub fn u8_from_bool(b: bool) -> (r: u8) ensures r == (if b { 1u8 } else { 0u8 }) { unimplemented!() }
+}
+pub use shim_std_int::*;
